@@ -44,7 +44,17 @@ def shapes(n):
 
 
 SHAPES = [(n, p) for n in (1, 2, 3) for p in shapes(n)]
-SHAPES4 = [(4, p) for p in shapes(4)]
+# four elements: a family of shapes (all 125 do not finish within the thorough budget: ~1000 s each)
+SHAPES4 = [(4, p) for p in [
+    ("root", 0, 1, 2),          # chain device <- attestation <- ui <- signer
+    ("root", 0, 1, 1),          # the real Ledger shape: ui and signer both signed by attestation
+    ("root", 0, 0, 0),          # star
+    ("root", "root", 0, 1),     # two roots
+    (1, 2, 3, "root"),          # reversed chain
+    ("root", 0, 0, 2),          # mixed depth
+    ("root", "root", "root", "root"),
+    (3, 3, 3, "root"),
+]]
 
 
 def all_shapes(tier):
@@ -194,7 +204,7 @@ def expected(n, parents, v, keybad, root_ok_for):
 
 
 @obligation(tier="quick", parts=lambda tier: len(all_shapes(tier)), timeout=200, part_names=shape_name,
-            bounds="element graphs: every parent assignment over 1..3 (T: 4) elements in which each element reaches the root (20 shapes, T: 145) "
+            bounds="element graphs: every parent assignment over 1..3 (T: 4) elements in which each element reaches the root (20 shapes; T: + 8 shapes of 4 elements incl. the real Ledger shape, without key-parse failures) "
                    "is a partition; symbolic per element: verdict of its own link, tweak declared or not, its embedded key parses or not; "
                    "one more symbolic verdict shared by every OTHER (key, message, signature) triple; a second validation of the same "
                    "object against another root with independent verdicts",
@@ -214,7 +224,7 @@ def chain(v0: bool, v1: bool, v2: bool, v3: bool, w: bool, t0: bool, t1: bool, t
     n, parents = ALL[part()]
     v = [v0, v1, v2, v3][:n]
     tweaks = [t0, t1, t2, t3][:n]
-    keybad = [k0, k1, k2, k3][:n]
+    keybad = [k0, k1, k2, k3][:n] if n < 4 else [False] * 4
     world = CryptoWorld(n)
     world.v = v
     world.w = w
